@@ -40,6 +40,8 @@ def run(ctx, rep):
     h0(rep, prog)
     addressing(rep, prog)
     verify(rep, prog)
+    _nw = cm.read_after_wipe(rep, ctx.prog("full"), ("classic::crypto_pwhash", "pwhash::", "argon2::"))
+    rep.note("WIPE-ORDER: %d wipe(s) of local buffers checked in the password-hashing code" % _nw)
 
 
 def limits(rep, prog, f, b):
